@@ -507,8 +507,16 @@ def emit_scope(scope: str, snake: bool, names: List[str]) -> Any:
         base = "f"
         while base in names:
             base += "q"
-        schema = build_ast_schema(parse("type Query { " + base + ": Int " + " ".join(f"{n}: Int" for n in plain) + " }"))
-        sel = " ".join(n if n in plain else f"{n}: {base}" for n in names)
+        # an aliased key selects, where possible, a field whose own name is what the key is expected to
+        # become (`fooBar: foo_bar`): the alias= keyword must then still carry the key, not the field name
+        target: Dict[str, str] = {}
+        for n in names:
+            if n not in plain:
+                guess = m_snake(n) if snake else n.lstrip("_")
+                target[n] = guess if (GNAME_RE.match(guess) and not guess.startswith("__") and guess != n) else base
+        fields = sorted(set(plain) | set(target.values()) | {base})
+        schema = build_ast_schema(parse("type Query { " + " ".join(f"{n}: Int" for n in fields) + " }"))
+        sel = " ".join(n if n in plain else f"{n}: {target[n]}" for n in names)
         op = parse("query Q { " + sel + " }").definitions[0]
         g = ResultTypesGenerator(schema=schema, operation_definition=op, enums_module_name="enums", convert_to_snake_case=snake)
         rows = _field_rows(g.get_classes()[0])
